@@ -101,8 +101,10 @@ CLAIMED = {
             "loops of the five C routines address the compact array through its layout (CTrace.v over regenerated "
             "offsets/moves), and the C loop simulates the abstract traceback when the compact array holds the matrix "
             "through the layout (CTraceSim.v; that content is judged cell by cell under C04)",
-            "the C traceback theorem is closed end to end over the fill model of C04 (C05_c_fill_then_trace: no pruning "
-            "inside the fill loop, exact arithmetic); isclose/prob decisions not modelled; F28b and F40 recorded",
+            "the C traceback theorem is closed end to end over the fill model of C04 (C05_c_fill_then_trace) and over the "
+            "kernel regenerated whole from dd_dtw.c (C05_c_kernel_then_trace; run without a bound, exact arithmetic); the "
+            "traceback loop itself is the canonical loop over regenerated offsets, not a whole-function translation; "
+            "isclose/prob decisions not modelled; F28b and F40 recorded",
             "Coq proof (traceback cost, end relaxation, layout refinement of the C loops) + regenerated C tables + "
             "correspondence + independent path checker"),
     "C06": ("Coq theorems over the functions REGENERATED from dtw.py (_distance_matrix_length, _complete_block, "
